@@ -29,6 +29,7 @@ if [ -f $d/demo.sh ]; then
 fi
 git checkout -q -- .
 echo "tests_ok_binaries=$tests_ok tests_failed=$tests_bad demo_exit_with_change=$demo_with demo_exit_without_change=$demo_without" | tee -a $log
+[ "${VERIFY_ONLY:-0}" = "1" ] && exit 0
 cd /verif
 git -C /repo apply $d/patch.diff || { echo "PATCH DOES NOT APPLY TO /repo" | tee -a $log; exit 2; }
 for c in "$@"; do
